@@ -160,7 +160,7 @@ def run_mc(specs, tier):
         if expect == "violate" and not res["violated"]:
             raise core.Undecided(f"design model {cfgname} no longer exposes the defects of the pinned design: vacuous")
         notes.append({"module": module, "cfg": cfgname, "expect": expect, "distinct": res["distinct"], "generated": res["generated"],
-                      "violated": res["violated"][:3], "wall_s": round(res["wall"], 1)})
+                      "violated": res["violated"][:3], "wall_s": round(res["wall"], 1), "from_cache": bool(res.get("cached"))})
     return states, trans, notes
 
 
